@@ -634,7 +634,7 @@ func TestVerifC15(t *testing.T) {
 	rep := verifutil.NewReport()
 	defer rep.Write()
 	nScen := verifutil.Scale(1, 3)
-	steps := verifutil.Scale(130, 260)
+	steps := verifutil.Scale(120, 260)
 	if v, err := strconv.Atoi(os.Getenv("C15_STEPS")); err == nil {
 		steps = v
 	}
@@ -769,6 +769,152 @@ func TestVerifC15(t *testing.T) {
 			if c.Deployed {
 				rep.Count("chain_deployed:"+c15Versioned(c.Kind, w.Cons.EnableUpgrade10), 1)
 			}
+		}
+		w.Cleanup()
+	}
+}
+
+// TestVerifC15SameBlock is the scripted form of the designated class "sendVote transactions
+// and the finishVoting that pays them in ONE block" (oracle 5): a voting with five voters is
+// driven to its public phase on the real chain, then the five reveals and the finishVoting
+// are put into one block built by the real ProposeBlock of the observer and that block is
+// executed N times on fresh check states. Every execution must accept it and produce the
+// same receipts (same order of the `reward` events).
+func TestVerifC15SameBlock(t *testing.T) {
+	if !verifutil.Enabled() {
+		t.Skip("verif harness")
+	}
+	c15SilenceStdout()
+	rep := verifutil.NewReport()
+	defer rep.Write()
+	N := verifutil.Scale(16, 48)
+	for sc, mode := range []string{"v12", "v9"} {
+		seed := scenSeed(sc) + 15500
+		o, kinds := c15Opts(seed, mode, 0)
+		w := NewWorld(o)
+		twin := w.AddTwin()
+		if err := w.Prologue(); err != nil {
+			t.Fatal(err)
+		}
+		g := NewC15Gen(w, twin, verifutil.NewRng(seed, 155), kinds)
+		if err := g.Fund(Dna(26000)); err != nil {
+			t.Fatal(err)
+		}
+		g.usedS = map[common.Address]bool{}
+		commit := func(what string, acts ...*C15Action) {
+			for _, a := range acts {
+				if err := w.Submit(a.Tx); err != nil {
+					t.Fatalf("%s: pool refused %s: %v", what, a.Describe(), err)
+				}
+			}
+			w.Tick(20 * time.Second)
+			if res := w.NextBlock(0); len(res.Errs) > 0 {
+				t.Fatalf("%s: block refused: %v", what, res.Errs)
+			}
+			for _, a := range acts {
+				if rc := w.View().Chain.GetReceipt(a.Tx.Hash()); rc == nil || !rc.Success {
+					t.Fatalf("%s: set-up tx failed: %s -> %+v", what, a.Describe(), rc)
+				}
+			}
+		}
+		owner := w.Accounts[0]
+		kind := c15Versioned(kOV, w.Cons.EnableUpgrade10)
+		class := kind + ":sendVote+finishVoting"
+		ns := uint64(w.View().AppState.ValidatorsCache.NetworkSize())
+		c := &C15Contract{Kind: kOV, Owner: owner}
+		dep := g.build(&cand{txKind: "Deploy", kind: kOV, c: c, from: owner, method: "deploy", shape: "valid", noMut: true,
+			amount: new(big.Int).Add(g.minStake(), big.NewInt(5)),
+			args: [][]byte{[]byte("fact"), u64b(uint64(w.Now().Unix() - 10)), u64b(2), u64b(100), {51}, {1}, u64b(ns), {0}, {0}}})
+		commit("deploy", dep)
+		deposit := new(big.Int).Add(new(big.Int).SetBytes(g.cval(c.Addr, "ownerDeposit")), Dna(10))
+		commit("start", g.build(&cand{txKind: "Call", kind: kOV, c: c, from: owner, method: "startVoting", amount: deposit, shape: "valid", noMut: true}))
+		voters := w.Idents[:5]
+		salts := map[common.Address][]byte{}
+		var proofs []*C15Action
+		for i, v := range voters {
+			salts[v.Addr] = []byte{byte(i), 7}
+			h := crypto.Hash(append(common.ToBytes(byte(1)), salts[v.Addr]...))
+			proofs = append(proofs, g.build(&cand{txKind: "Call", kind: kOV, c: c, from: v, method: "sendVoteProof", amount: big.NewInt(0), args: [][]byte{h[:]}, shape: "valid", noMut: true}))
+		}
+		commit("proofs", proofs...)
+		for g.nextHeight()-c15U64(g.cval(c.Addr, "startBlock")) < 2 {
+			commit("wait")
+		}
+		// the designated block
+		var txs []*C15Action
+		var fin *Actor
+		var finNonce uint32
+		for _, v := range voters {
+			txs = append(txs, g.build(&cand{txKind: "Call", kind: kOV, c: c, from: v, method: "sendVote", amount: big.NewInt(0), args: [][]byte{{1}, salts[v.Addr]}, shape: "valid", noMut: true}))
+			if n := w.NextNonce(v); fin == nil || n > finNonce {
+				fin, finNonce = v, n
+			}
+		}
+		fa := g.build(&cand{txKind: "Call", kind: kOV, c: c, from: fin, method: "finishVoting", amount: big.NewInt(0), shape: "valid", noMut: true})
+		fa.Tx = SignedTx(fin, fa.Tx.Type, fa.Tx.To, fa.Tx.Amount, fa.Tx.MaxFee, nil, finNonce+1, fa.Tx.Epoch, fa.Tx.Payload)
+		txs = append(txs, fa)
+		twin.enter()
+		for _, a := range txs {
+			if err := twin.TxPool.AddExternalTxs(validation.InboundTx, a.Tx); err != nil {
+				t.Fatalf("observer pool refused %s: %v", a.Describe(), err)
+			}
+		}
+		b := twin.Chain.ProposeBlock(nil).Block
+		for _, old := range twin.TxPool.VerifAll() {
+			twin.TxPool.Remove(old)
+		}
+		if len(b.Body.Transactions) != len(txs) || b.Body.Transactions[len(txs)-1].Hash() != fa.Tx.Hash() {
+			t.Fatalf("designated block not built as planned: %v", DescribeBlock(b))
+		}
+		orders := map[string]int{}
+		refused := map[string]int{}
+		var desc []string
+		for _, a := range txs {
+			desc = append(desc, a.Describe())
+		}
+		for i := 0; i < N; i++ {
+			_, rcs, err := twin.Chain.VerifValidateOnCheck(b)
+			rep.Eval(1)
+			rep.Count("reexecutions", 1)
+			if err != nil {
+				refused[ErrClass(err)]++
+				continue
+			}
+			last := rcs[len(rcs)-1]
+			if i == 0 && last.Success {
+				rep.Count("sameblock_class_seen:"+class, 1)
+				rep.Distinct("scripted", class)
+			}
+			var o []string
+			for _, e := range last.Events {
+				if len(e.Data) > 0 {
+					o = append(o, fmt.Sprintf("%x", trunc(e.Data[0], 3)))
+				}
+			}
+			orders[fmt.Sprintf("success=%v rewards=%s", last.Success, strings.Join(o, ">"))]++
+		}
+		// what the executions computed, independent of the comparison with the header
+		raw := map[string]int{}
+		for i := 0; i < N; i++ {
+			rcs, err := twin.Chain.VerifProcessTxsOnCheck(b)
+			if err != nil || len(rcs) != len(txs) {
+				raw[fmt.Sprintf("error %v", err)]++
+				continue
+			}
+			var o []string
+			for _, e := range rcs[len(rcs)-1].Events {
+				if len(e.Data) > 0 {
+					o = append(o, fmt.Sprintf("%x", trunc(e.Data[0], 3)))
+				}
+			}
+			raw[strings.Join(o, ">")]++
+		}
+		rep.Count("sameblock_distinct_reward_orders", len(raw))
+		rep.Sample(map[string]interface{}{"class": class, "txs": desc, "executions": N, "accepted_with_reward_event_order": orders, "refused": refused,
+			"reward_event_orders_of_N_plain_executions_of_the_tx_list": raw})
+		if len(refused) > 0 || len(orders) > 1 || len(raw) > 1 {
+			rep.Violation("nondeterministic:"+class, fmt.Sprintf("one block (5 sendVote + the finishVoting that pays them) built by ProposeBlock, executed %d times on fresh check states of the same head: refused %v; accepted executions by order of the reward events: %v; %d plain executions of its tx list gave %d different orders of the reward events",
+				N, refused, orders, N, len(raw)), map[string]interface{}{"txs": desc, "block": DescribeBlock(b), "orders": orders, "refused": refused, "reward_orders": raw})
 		}
 		w.Cleanup()
 	}
